@@ -46,7 +46,9 @@ type Obs struct {
 	Locs       map[string]int
 	HealthyOK  bool
 	HealthyErr string
-	Hang       string // "" | "run" | "later-run"
+	Hang       string // "" | "run" | "repeat-run" | "later-run"
+	Repeats    int    // how often the failing Func was run again before the healthy one
+	RepeatBad  string // a repeat of the failing Func that broke the oracle of the first run
 	Unbounded  bool   // the cell was abandoned because the failure had been delivered more than fireBound times
 	Ms         int64
 	Stacks     string // goroutine dump when hung
@@ -98,6 +100,8 @@ func (calmSystem) KeepaliveConfig() (period, timeout, rpcTimeout time.Duration) 
 	return 2 * time.Second, 2 * time.Minute, time.Minute
 }
 
+const localParallelism = 4
+
 func startSession(config string) (*exec.Session, *vsys.System) {
 	var sys *vsys.System
 	bm := func(procs int) exec.Option {
@@ -106,7 +110,7 @@ func startSession(config string) (*exec.Session, *vsys.System) {
 	}
 	switch config {
 	case "local":
-		return exec.Start(exec.Local, exec.Parallelism(4)), nil
+		return exec.Start(exec.Local, exec.Parallelism(localParallelism)), nil
 	case "vsys": // one machine, 7 procs
 		return exec.Start(bm(8), exec.Parallelism(7)), sys
 	case "vsysmulti": // up to four machines of one proc each
@@ -293,9 +297,36 @@ func runCell(c *Cell, emit func(line)) {
 	o.RowsOK, o.RowsDiff = r.diff == "", r.diff
 	snapshot()
 
-	// a second, healthy program in the same session
+	// "the session remains usable for later runs": run the failing Func again --
+	// on the local executor once per proc of the session, so that a resource leaked
+	// by every failing task is exhausted; once on the clusters -- ...
+	repeats := 1
+	if c.Config == "local" {
+		repeats = localParallelism
+	}
+	for i := 0; i < repeats; i++ {
+		if s.Pers == "once" {
+			atomic.StoreInt64(&table[idx].fired, 0) // one-shot: fails once in every run
+		}
+		r, ok = await(&s, true)
+		if !ok {
+			o.Hang = "repeat-run"
+			o.Stacks = allStacks()
+			emit(line{Obs: o})
+			os.Exit(3)
+		}
+		o.Repeats++
+		switch {
+		case r.err == nil && r.diff != "":
+			o.RepeatBad = fmt.Sprintf("repeat %d of the failing Func returned nil with wrong rows: %s", i+1, r.diff)
+		case r.err == nil && s.Pers == "always" && !o.ErrNil:
+			o.RepeatBad = fmt.Sprintf("repeat %d of the persistently failing Func returned nil", i+1)
+		}
+	}
+	// ... and then a healthy program whose tasks each need ALL procs (Exclusive):
+	// a single leaked proc makes it wait forever.
 	h := Spec{Case: (idx + 1) % len(table), Family: s.Family, Site: "none", Layout: "G", Mode: "none", Pers: "always",
-		Chunk: s.Chunk, N: s.N, Shard: 0, Target: -1, Mask: 0, Msg: "healthy"}
+		Chunk: s.Chunk, N: s.N, Shard: 0, Target: -1, Mask: 0, Msg: "healthy", Exclusive: true}
 	r, ok = await(&h, false)
 	switch {
 	case !ok:
